@@ -89,6 +89,14 @@ def generate(seed, run, tier):
         else:
             out.insert(pos, dict(ob, inject=True))
         return {'cfg': cfg, 'ops': out, 'run_seed': mix(seed, ID, run, 'run')}
+    if swarm['aborts']:
+        # an interrupted pass is often followed by a look at the model before the next complete pass
+        ops2 = []
+        for o in ops:
+            ops2.append(o)
+            if o.get('abort') and rs.chance(0.6):
+                ops2.append({'op': rs.choice(['read_cost', 'read_cost', 'read_summary'])})
+        ops = ops2
     n_obs = rf.randint(1, 5)
     burst = rf.chance(0.3)
     out = list(ops)
@@ -107,7 +115,8 @@ def generate(seed, run, tier):
         if r < 0.5:
             # right before a read / right after a mode switch / between backward and optimizer step
             cand = [i for i, o in enumerate(out) if o['op'] in ('read_cost', 'read_summary', 'opt_step')] + \
-                   [i + 1 for i, o in enumerate(out) if o['op'] in ('set_mode', 'backward_only', 'softmax_opts')]
+                   [i + 1 for i, o in enumerate(out) if o['op'] in ('set_mode', 'backward_only', 'softmax_opts')] + \
+                   [i + 1 for i, o in enumerate(out) if o.get('abort')] * 3
             if cand:
                 out.insert(rf.choice(cand), ob)
                 continue
